@@ -199,6 +199,12 @@ def correspond(ctx):
                         {"fn": "deserialize_problem", "term": sx, "text": t, "h": h, "w": w})
     # ---- 2. URL layer on puzzle combinators and deserialize_<puzzle>
     names = [objs[p][0].__name__.split(".")[-1] for p in sc.PUZZLES] + ["slither"]
+    psx = {p: sc.comb_sx(objs[p][1]) for p in sc.PUZZLES}
+    codec = {p: sc.capture_codec(objs[p][0], p)["d"] for p in sc.PUZZLES}
+    codec_al = {}
+    for p in sc.PUZZLES:
+        al = codec[p][1]
+        codec_al[p] = "N" if al is None else "(" + " ".join(sc.cps(a) for a in (al if isinstance(al, list) else [al])) + ")"
     urls = []
     for p in sc.PUZZLES:
         for _ in range(ctx.n(60, 300)):
@@ -222,12 +228,15 @@ def correspond(ctx):
         ctx.count("url:" + how)
         mod, comb, ser, de = objs[p]
         usx = sc.cps(u)
-        add("pde", "(pde %s %s)" % (p, usx), (lambda de=de, u=u: de(u)), sc.val_outcome, {"fn": "deserialize_" + p, "url": u})
+        # the term and the keyword arguments are sent explicitly (captured from the live module), so the op does not
+        # depend on which Gen table the shared driver binary was last built with
+        add("pde", "(deurl %s %s %s %s %s)" % (psx[p], usx, codec_al[p], "T" if codec[p][2] else "F", "T" if codec[p][3] else "F"),
+            (lambda de=de, u=u: de(u)), sc.val_outcome, {"fn": "deserialize_" + p, "url": u})
         if rng.random() < 0.5:
             al = rng.choice([None, p, [p], ["x", p], "slither", [], ["masyu", "mashu"]])
             af, rs = rng.random() < 0.5, rng.random() < 0.5
             alsx = "N" if al is None else "(" + " ".join(sc.cps(a) for a in (al if isinstance(al, list) else [al])) + ")"
-            add("deurl", "(deurl (puzzle %s) %s %s %s %s)" % (p, usx, alsx, "T" if af else "F", "T" if rs else "F"),
+            add("deurl", "(deurl %s %s %s %s %s)" % (psx[p], usx, alsx, "T" if af else "F", "T" if rs else "F"),
                 (lambda comb=comb, u=u, al=al, af=af, rs=rs: ps.deserialize_problem_as_url(comb, u, allowed_puzzles=al, allow_failure=af, return_size=rs)),
                 sc.val_outcome, {"fn": "deserialize_problem_as_url", "puzzle": p, "url": u, "allowed": al, "allow_failure": af, "return_size": rs})
         if rng.random() < 0.3:
@@ -279,7 +288,7 @@ def correspond(ctx):
             comb = objs[p][1]
             ops2.append((lambda comb=comb, val=val, hh=hh, ww=ww: ps.serialize_problem(comb, val, height=hh, width=ww),
                          {"fn": "serialize_problem(decoded)", "puzzle": p, "value": repr(val)[:300], "h": hh, "w": ww}))
-            lines2.append("(serp (puzzle %s) %s %d %d)" % (p, sc.val_sx(val), hh, ww))
+            lines2.append("(serp %s %s %d %d)" % (psx[p], sc.val_sx(val), hh, ww))
     outs2 = drv.run(lines2)
     for (fn, sample), mo in zip(ops2, outs2):
         ro = sc.str_outcome(sc.run_guarded(fn, 0.25 if mo == "diverge" else 30))
@@ -289,13 +298,8 @@ def correspond(ctx):
         ctx.case(sample, ("reencode", repr(sorted(sample.items()))))
         if ro != mo:
             ctx.disagree("model-vs-code:reencode", real=ro[:2000], model=mo[:2000], **{k2: v for k2, v in sample.items() if k2 != "real"})
-    # regenerated puzzle table
-    outs = drv.run(["(pcomb %s)" % p for p in sc.PUZZLES])
-    for p, mo in zip(sc.PUZZLES, outs):
-        live = sc.comb_sx(objs[p][1])
-        got = core.parse_sx(mo)
-        if not isinstance(got, list) or core.sx(got[0]) != core.sx(core.parse_sx(live)):
-            ctx.disagree("puzzle-table-stale", puzzle=p, live=live, table=mo)
+    # regenerated puzzle table (the one the theorems were instantiated on in this build)
+    sc.check_puzzle_table(ctx, drv, objs)
 
 
 # ------------------------------------------------------------------ search: the property text as a plain-Python oracle
